@@ -10,6 +10,7 @@ import (
 var registry = map[string]func(*checks.Run) int{
 	"C06": checks.CheckC06,
 	"C07": checks.CheckC07,
+	"C08": checks.CheckC08,
 	"C11": checks.CheckC11,
 	"C01": checks.CheckC01,
 	"C02": checks.CheckC02,
@@ -18,6 +19,8 @@ var registry = map[string]func(*checks.Run) int{
 	"C12": checks.CheckC12,
 	"C13": checks.CheckC13,
 	"C14": checks.CheckC14,
+	"C17": checks.CheckC17,
+	"C18": checks.CheckC18,
 	"C19": checks.CheckC19,
 }
 
